@@ -24,3 +24,80 @@ def vhm_program(rng, nthreads, nops, keys=(1, 2, 3, 4, 5, 6), iter_thread=None):
                 ops.append('%s %d %d' % (op, k, vv) if op in ('ins', 'getins', 'getlazy') else '%s %d' % (op, k))
         prog.append(ops)
     return prog
+
+# ---------------------------------------------------------------------------------------------------------------
+# one-bucket models (Model/VhmDefs.v, Model/VhmItDefs.v): trace correspondence.  The extension bucket sits at an offset
+# inside the block that depends on the allocation address (it is aligned to 256 bytes, the block to 64): the offset is
+# probed from the harness' own set-up trace for every case and handed to the model as cfg key xoff.
+# ---------------------------------------------------------------------------------------------------------------
+import re as _re, hashlib as _hashlib, concurrent.futures as _cf
+import xvlib as _X
+
+def _probe_xoff(harness, case_path):
+    rc, out, err = _X.sh([harness, 'run', case_path, '--trace', '--spin', '1000000'], timeout=60)
+    seen = False
+    for l in out.splitlines():
+        if 'ALLOC h1 ' in l: seen = True
+        elif seen:
+            m = _re.match(r'TRACE T0 ST h1\+(\d+) rlx 0$', l)
+            if m: return int(m.group(1)) - 32
+    return None
+
+def vhm_model_program(rng, iterators=False):
+    keys = [1, 2, 3, 4, 5, 6]
+    init = [k for k in rng.sample(keys, 6) if rng.random() < 0.72]
+    nth = 2 + (rng.random() < 0.5)
+    prog = []
+    for t in range(nth):
+        ops = []
+        if iterators and t == 0:
+            for _ in range(rng.randint(1, 2)):
+                ops.append(rng.choice(['itb', 'itf %d' % rng.choice(keys)]))
+                for _ in range(rng.randint(1, 3)): ops.append(rng.choice(['itn', 'itd', 'ite', 'itn']))
+                ops.append('itr')
+        else:
+            for _ in range(rng.randint(2, 4)):
+                k = rng.choice(keys); op = rng.choice(['ins', 'getins', 'del', 'ext', 'get', 'get'])
+                ops.append('%s %d %d' % (op, k, 10 * k) if op in ('ins', 'getins') else '%s %d' % (op, k))
+        prog.append(ops)
+    cfg = {'mode': 'll', 'cap': '128', 'hash': 'const', 'xoff': '0000'}
+    if init: cfg['init'] = '.'.join(map(str, init))
+    return cfg, prog
+
+VHM_FIXED = [({'mode': 'll', 'cap': '128', 'hash': 'const', 'init': '1.2.3.4.5.6', 'xoff': '0000'}, [['del 5', 'ext 6', 'ins 5 50'], ['get 4', 'get 5'], ['get 6', 'del 2']]),
+             ({'mode': 'll', 'cap': '128', 'hash': 'const', 'init': '1.2.3', 'xoff': '0000'}, [['ins 4 40', 'ins 5 50', 'del 4'], ['getins 4 41', 'get 5'], ['ext 1', 'get 4']])]
+VHMIT_FIXED = [({'mode': 'll', 'cap': '128', 'hash': 'const', 'init': '1.2.3.4.5.6', 'xoff': '0000'}, [['itf 5', 'ite', 'itn', 'itr'], ['get 4', 'get 6'], ['get 5', 'ins 5 50']]),
+               ({'mode': 'll', 'cap': '128', 'hash': 'const', 'init': '1.2.3.4', 'xoff': '0000'}, [['itb', 'itn', 'ite', 'itd', 'itr'], ['del 2', 'get 4'], ['ins 5 50']])]
+
+def vhm_correspondence(ctx, model, harness, cases, per_case, label):
+    """like xvlib.correspondence, with the xoff probe per case; returns the same statistics dict"""
+    wd, driver = ctx['wd'], ctx['driver']
+    jobs = []; cov = 0
+    for ci, (cfg, prog) in enumerate(cases):
+        base = wd.write(_X.case_text(cfg, prog))
+        scheds, c = _X.model_schedules(driver, model, base, per_case, ctx['seed'] * 7919 + 13 + ci)
+        cov = max(cov, c)
+        for s in scheds: jobs.append((cfg, prog, s))
+    st = {'cases': len(jobs), 'programs': len(cases), 'steps': 0, 'mismatches': [], 'impl_violations': [], 'model_pcs_covered': cov, 'distinct': 0, 'samples': []}
+    def one(job):
+        cfg, prog, s = job
+        p0 = wd.write(_X.case_text(cfg, prog, s))
+        xo = _probe_xoff(harness, p0)
+        if xo is None: return job, (False, (0, 'xoff probe failed', ''), 0, -1, 'no extension bucket initialisation found in the set-up trace'), _X.case_text(cfg, prog, s)
+        cfg2 = dict(cfg, xoff='%04d' % xo)
+        txt = _X.case_text(cfg2, prog, s)
+        return job, _X.correspond_one(driver, model, harness, wd.write(txt)), txt
+    with _cf.ThreadPoolExecutor(max_workers=_X.NPROC) as ex:
+        for job, (same, diff, n, ist, idet), txt in ex.map(one, jobs):
+            st['steps'] += n
+            if not same: st['mismatches'].append({'case': txt, 'step': diff[0], 'model': diff[1], 'impl': diff[2]})
+            if ist != 0: st['impl_violations'].append({'case': txt, 'status': ist, 'detail': idet})
+            if len(st['samples']) < 2: st['samples'].append({'case': txt, 'agree': same, 'trace_lines': n})
+    st['distinct'] = len(set(_hashlib.sha1(_X.case_text(c, p, s).encode()).hexdigest() for c, p, s in jobs))
+    c = ctx['cov'].setdefault('correspondence', {})
+    c[label] = {k: st[k] for k in ('cases', 'programs', 'steps', 'model_pcs_covered', 'distinct')}
+    c[label]['mismatches'] = len(st['mismatches'])
+    ctx['cov']['samples'] += st['samples'][:1]
+    ctx['cov']['traces_validated_against_impl'] = ctx['cov'].get('traces_validated_against_impl', 0) + st['cases'] - len(st['mismatches'])
+    _X.log('correspondence[%s]: %d cases (%d programs), %d trace lines, %d mismatches, %d impl violations' % (label, st['cases'], st['programs'], st['steps'], len(st['mismatches']), len(st['impl_violations'])))
+    return st
